@@ -49,14 +49,17 @@ Theorem C05_context_level_clamped :
   ((65535 < plain_sum (ps_ctx pass s))%Z -> snd (get_context_level pass s) = 65535).
 Proof. exact get_context_level_clamped. Qed.
 
-(* UNBOUNDED, on the grammar model: for every program of the fragment `begin stmts end.` (statements: call, assignment, begin/end,
-   repeat/until, try/finally, nested to any depth, any length) the parser model ends without error and its logical lines are exactly
+(* UNBOUNDED, on the grammar model: for every well-formed program of the fragment `begin stmts end.` (Model/Fragment.v: call, assignment,
+   begin/end, repeat/until, try/finally, try/except with statements or `on E: T do` handlers, if/then[/else], while/do, case[/else], any
+   statement as a body, nested to any depth, any length; wf: the then-branch of an if/else cannot take the else for itself) the parser
+   model ends without error, the tokens it hands on are the input's with `on` (and, in sections, var/const/=) re-typed (fin) and its logical lines are exactly
    one per statement / opener / closer, at the level of the nesting depth (Model/Fragment.v: expected_prog); no line has a parent *)
 From PasfmtVerif Require Import Model.Fragment Proofs.FragmentProofs.
 Theorem C05_fragment_statements_one_per_line_at_depth :
   forall ss : stmts,
+  wf ss = true ->
   let r := parse_file_model (render_prog ss) [] in
-  r_err r = None /\ r_lines r = expected_prog ss /\ r_toks r = render_prog ss.
+  r_err r = None /\ r_lines r = expected_prog ss /\ r_toks r = map fin (render_prog ss).
 Proof. exact fragment_parse_file. Qed.
 
 Theorem C05_fragment_no_child_lines :
@@ -70,7 +73,7 @@ Proof. exact fragment_no_parents. Qed.
    child lines of their bodies have their parent line earlier in the list and the parent token in it *)
 From PasfmtVerif Require Import Model.Fragment Proofs.FragmentProofs.
 Theorem C05_fragment_child_lines_have_their_parent_earlier :
-  forall ss : stmts, parents_ok (r_lines (parse_file_model (render_prog ss) [])) = true.
+  forall ss : stmts, wf ss = true -> parents_ok (r_lines (parse_file_model (render_prog ss) [])) = true.
 Proof. exact fragment_parents_ok. Qed.
 
 (* THE HYPOTHESIS H-W1 OF THE RENDERING THEOREMS, ON THE SEARCH MODEL (it used to be monitored only: unit levels): a token whose LAST
